@@ -37,7 +37,7 @@ fn boundary(w: &mut World, len: usize, idx: i64) {
     }
 }
 
-pub const NAMES: &[&str] = &["LPUSH", "RPUSH", "LPOP", "RPOP", "LLEN", "LRANGE", "LINDEX", "LSET", "LTRIM", "LREM", "SADD", "SREM", "SMEMBERS", "SISMEMBER", "SCARD", "SUNION", "SINTER", "SDIFF", "SPOP", "SRANDMEMBER", "HSET", "HMSET", "HGET", "HMGET", "HGETALL", "HKEYS", "HVALS", "HDEL", "HLEN", "HEXISTS", "HINCRBY"];
+pub const NAMES: &[&str] = &["BLPOP", "BRPOP", "LPUSH", "RPUSH", "LPOP", "RPOP", "LLEN", "LRANGE", "LINDEX", "LSET", "LTRIM", "LREM", "SADD", "SREM", "SMEMBERS", "SISMEMBER", "SCARD", "SUNION", "SINTER", "SDIFF", "SPOP", "SRANDMEMBER", "HSET", "HMSET", "HGET", "HMGET", "HGETALL", "HKEYS", "HVALS", "HDEL", "HLEN", "HEXISTS", "HINCRBY"];
 
 pub fn exec(w: &mut World, db: usize, name: &str, a: &[Bytes], reply: &Reply) -> Option<Res> {
     if !NAMES.contains(&name) {
@@ -282,6 +282,37 @@ fn inner(w: &mut World, db: usize, name: &str, a: &[Bytes], reply: &Reply) -> Re
                     chk_int(reply, removed as i64)
                 }
             }
+        }
+        "BLPOP" | "BRPOP" => {
+            // BLPOP k1 .. kn timeout, judged when its reply is in hand: pops from the first
+            // non-empty key in argument order, else (timed out / inside EXEC) nil
+            if a.len() < 3 {
+                return (chk_err(reply));
+            }
+            match parse_f64(&a[a.len() - 1]) {
+                Some(t) if t >= 0.0 && t.is_finite() => {}
+                _ => {
+                    w.label("bad-timeout");
+                    return (chk_err(reply));
+                }
+            }
+            let keys = &a[1..a.len() - 1];
+            for k in keys {
+                w.touch(db, k);
+                match typed!(w, db, k, Val::List) {
+                    Err(()) => return (wrong_type(w, reply)),
+                    Ok(None) => continue,
+                    Ok(Some(l)) => {
+                        let e = if name == "BLPOP" { l.pop_front() } else { l.pop_back() }.unwrap();
+                        w.mutated();
+                        w.drop_if_empty(db, k);
+                        w.label("blocking-pop-served");
+                        return (chk_list(reply, &[k.clone(), e]));
+                    }
+                }
+            }
+            w.label("blocking-pop-timeout");
+            chk_nil(reply)
         }
         // ---------------- sets ----------------
         "SADD" => {
@@ -730,6 +761,9 @@ fn inner(w: &mut World, db: usize, name: &str, a: &[Bytes], reply: &Reply) -> Re
 
 /// HGETALL: flat array of field, value pairs in any pair order.
 pub fn chk_pairs(r: &Reply, h: &BTreeMap<Bytes, Bytes>) -> Res {
+    if lenient() && matches!(r, Reply::Frame(_)) {
+        return Ok(());
+    }
     if let Reply::Frame(Frame::Array(v)) = r {
         if v.len() == h.len() * 2 {
             let mut got = BTreeMap::new();
